@@ -130,6 +130,13 @@ def cleanupHeads (m : Store) : List Nat → Res Store
 
 def step (s : St) (w : List String) : St × String :=
   match w with
+  | ["n", "cxxreread", file, cycles] =>
+    -- third part (harness/drvxx_treeparse.cpp): the C++ parser wrapper reads a file, then re-reads it `cycles` times
+    -- after reset(): the clauses are relational (same tree every time, nothing lost, nothing left), the number of
+    -- nodes is not modelled
+    match parseHex file, cycles.toNat? with
+    | some _, some c => if c > 16 then (s, "bad-op") else (s, "R same | C - | I ret=- | S same ; -")
+    | _, _ => (s, "bad-op")
   | ["n", "nparse", x, lim, inp] =>
     if inp ≠ "empty" ∧ inp ≠ "broken" then (s, "bad-op") else
     match tok s x with
@@ -218,6 +225,13 @@ def step (s : St) (w : List String) : St × String :=
       match s.sp.swap a b with
       | none => precond s
       | some sp' => finish s (s.m.swap s.m.fuel a b) sp' "-"
+    | _, _ => (s, "bad-op")
+  | ["n", "switch", a, b] =>
+    match tok s a, tok s b with
+    | some a, some b =>
+      match s.sp.switch a b with
+      | none => precond s
+      | some sp' => finish s (s.m.switch a b) sp' "-"
     | _, _ => (s, "bad-op")
   | "n" :: "relink" :: x :: rest =>
     if rest ≠ [] ∧ rest ≠ ["scramble"] then (s, "bad-op") else
